@@ -30,6 +30,16 @@ class Opaque:
         return f"Opaque({self.reason})"
 
 
+class InstanceV:
+    """an object of a plain class of the layout modules whose __init__ only stores values: the stored attributes"""
+
+    def __init__(self, cls, attrs):
+        self.cls, self.attrs = cls, attrs
+
+    def __repr__(self):
+        return f"<{self.cls.name} object {sorted(self.attrs)}>"
+
+
 class AnyT:
     def __repr__(self):
         return "Any"
@@ -695,6 +705,17 @@ class SpecModel:
             meth = self.method_of("AlgValue", attr)
             if meth is not None:
                 return BoundV(meth, base)   # a plain method of the value class: evaluated from its source when called
+        if isinstance(base, InstanceV):
+            if attr in base.attrs:
+                return base.attrs[attr]
+            v = base.cls.lookup(attr)
+            if isinstance(v, FuncV):
+                return BoundV(v, base)
+            if v is not None or base.cls.has(attr):
+                return v
+            return Opaque(f"attribute .{attr} of {base!r}")
+        if isinstance(base, DictV) and attr == "get":
+            return BoundV("get", base)
         if isinstance(base, NamedRangeV):
             return BoundV(attr, base)
         if isinstance(base, ExternalV):
@@ -732,7 +753,8 @@ class SpecModel:
                 return hit[0] if hit else as_int(args[0])   # (a combination of flags is kept as its number)
             if f.name == "ValidValues":
                 return ValidValuesV(args, node)
-            return Opaque(f"instance of {f.name}")
+            inst = self.plain_instance(f, args, kwargs)
+            return inst if inst is not None else Opaque(f"instance of {f.name}")
         if isinstance(f, ExternalV):
             if f.name == "builtins.range":
                 ints = [as_int(a) for a in args]
@@ -845,6 +867,10 @@ class SpecModel:
         return Opaque("call " + norm(node.func)[:60])
 
     def call_bound(self, f: "BoundV", args, kwargs, mod):
+        if isinstance(f.self, DictV) and f.func == "get" and 1 <= len(args) <= 2 and not kwargs:
+            return f.self.get(args[0], args[1] if len(args) == 2 else None)
+        if isinstance(f.self, InstanceV) and isinstance(f.func, FuncV):
+            return self.call_value(f.func, [f.self] + list(args), f.func.module, kwargs)
         if isinstance(f.self, AlgValueV) and isinstance(f.func, FuncV):
             return self.call_value(f.func, [f.self] + list(args), f.func.module, kwargs)
         if isinstance(f.self, NamedRangeV):
@@ -942,6 +968,43 @@ class SpecModel:
                 if isinstance(f, FuncV) and any(norm(d) == "property" for d in f.node.decorator_list):
                     return f
         return None
+
+    def plain_instance(self, cls, args, kwargs):
+        """InstanceV for `cls(args)` when cls is a plain class (no decorator semantics) whose own __init__ consists of asserts and
+        `self.<name> = <expr>` statements; None otherwise"""
+        if getattr(cls, "kind", None) not in (None, "plain") or cls.has("__tpm_enum__"):
+            return None
+        ini = cls.ns.get("__init__")
+        if not isinstance(ini, FuncV) or ini.node.decorator_list:
+            return None
+        a = ini.node.args
+        if a.vararg or a.kwarg or a.kwonlyargs or a.posonlyargs:
+            return None
+        names = [x.arg for x in a.args]
+        if len(args) > len(names) - 1:
+            return None
+        env = dict(self.envs.get(ini.module.name, {}))
+        inst = InstanceV(cls, {})
+        env[names[0]] = inst
+        for nm_, d in zip(reversed(names), reversed(a.defaults)):
+            env[nm_] = self._eval(d, dict(self.envs.get(ini.module.name, {})), ini.module, None)
+        for nm_, v_ in zip(names[1:], args):
+            env[nm_] = v_
+        for k_, v_ in (kwargs or {}).items():
+            if k_ not in names[1:]:
+                return None
+            env[k_] = v_
+        if any(n_ not in env for n_ in names):
+            return None
+        for st in ini.node.body:
+            if isinstance(st, ast.Expr) and isinstance(st.value, ast.Constant) or isinstance(st, (ast.Assert, ast.Pass)):
+                continue
+            tgt = st.targets[0] if isinstance(st, ast.Assign) and len(st.targets) == 1 else st.target if isinstance(st, ast.AnnAssign) and st.value is not None else None
+            if isinstance(tgt, ast.Attribute) and isinstance(tgt.value, ast.Name) and tgt.value.id == names[0]:
+                inst.attrs[tgt.attr] = self._eval(st.value, env, ini.module, None)
+                continue
+            return None
+        return inst
 
     def method_of(self, clsname, attr):
         for env in self.envs.values():
